@@ -525,12 +525,6 @@ impl<'a, R: AsyncRead + Unpin, W: AsyncWrite + Unpin> Request<'a, R, W> {
             _ => { /* Need to parse new stream data */ },
         }
 
-        // Make sure Parser::output_buffer is sent out regularly. Since output
-        // from the Parser should be rare, the parsing loop below batches it
-        // until the next call to poll_input() (either from the user or a wake).
-        // The added latency doesn't matter for parser output.
-        ready!(Pin::new(&mut *this).poll_output(cx))?;
-
         // Perform an initial `Parser::parse` without new input to consume buffered protocol data
         let mut read = 0;
         loop {
@@ -544,7 +538,11 @@ impl<'a, R: AsyncRead + Unpin, W: AsyncWrite + Unpin> Request<'a, R, W> {
 
             // Both stream and protocol data buffers are empty here
             this.parser.compress();
-            // Don't wait for more input while the records parsed above are owed a reply
+            // Since output from the Parser should be rare, it is batched until
+            // we have to wait for more input: don't do that while the records
+            // parsed above are owed a reply. Calls which can be served from
+            // buffered data must not wait for the output lock, it may be held
+            // by a StreamWriter of the task which is polling us.
             ready!(Pin::new(&mut *this).poll_output(cx))?;
             let buf = this.parser.input_buffer();
             read = ready!(Pin::new(&mut this.input).poll_read(cx, buf))?;
